@@ -269,6 +269,29 @@ func init() {
 		reg(n, func(e *Exec, fn *ssa.Function, a []Value) Value { return nil })
 	}
 
+	// ---- net.IP.Equal, exactly as the standard library defines it
+	reg("(net.IP).Equal", func(e *Exec, fn *ssa.Function, a []Value) Value {
+		x, y := a[0].(Slice), a[1].(Slice)
+		bs := func(s Slice) []*sym.Term {
+			if s.Len == 0 {
+				return nil
+			}
+			return e.bytesOf(s)
+		}
+		bx, by := bs(x), bs(y)
+		eq := func(p, q []*sym.Term) *sym.Term { return e.strEq(Str{p}, Str{q}) }
+		v4in6 := e.strConst("\x00\x00\x00\x00\x00\x00\x00\x00\x00\x00\xff\xff").B
+		switch {
+		case len(bx) == len(by):
+			return eq(bx, by)
+		case len(bx) == 4 && len(by) == 16:
+			return e.tb.BAnd(eq(by[:12], v4in6), eq(bx, by[12:]))
+		case len(bx) == 16 && len(by) == 4:
+			return e.tb.BAnd(eq(bx[:12], v4in6), eq(bx[12:], by))
+		}
+		return e.tb.False
+	})
+
 	// ---- AES as an uninterpreted permutation pair, CBC per SP 800-38A
 	reg("crypto/aes.NewCipher", func(e *Exec, fn *ssa.Function, a []Value) Value {
 		k := a[0].(Slice)
